@@ -36,6 +36,10 @@ Res(kind, word, blame) == [kind |-> kind, word |-> word, blame |-> blame]
 
 RECURSIVE NameLen(_, _)
 NameLen(src, j) == IF j <= Len(src) /\ src[j] = "plain" THEN 1 + NameLen(src, j + 1) ELSE 0
+\* backslash-newline pairs are removed before `$` looks at what follows it (found by the binding at length 4:
+\* "$\<newline>$" is $$)
+RECURSIVE SkipLC(_, _)
+SkipLC(src, j) == IF j + 1 <= Len(src) /\ src[j] = "bslash" /\ src[j + 1] = "newline" THEN SkipLC(src, j + 2) ELSE j
 
 (* mode: "U" unquoted, "S" inside '...', "D" inside "..." *)
 RECURSIVE Scan(_, _, _, _, _)
@@ -46,14 +50,16 @@ Scan(src, i, mode, acc, blame) ==
   ELSE
   LET c == src[i]
       nx == IF i < Len(src) THEN src[i + 1] ELSE "end"
-      \* `$` in modes U and D
+      \* `$` in modes U and D (what follows is looked at after line continuations have been removed)
+      dj == SkipLC(src, i + 1)
+      dx == IF dj <= Len(src) THEN src[dj] ELSE "end"
       Dollar ==
-        IF nx = "plain"                 \* $name : unset variable, expands to nothing
-        THEN Scan(src, i + 1 + NameLen(src, i + 1), mode, acc, Bl(blame, c))
-        ELSE IF nx = "dollar"           \* $$ : process id
+        IF dx = "plain"                 \* $name : unset variable, expands to nothing
+        THEN Scan(src, dj + NameLen(src, dj), mode, acc, Bl(blame, c))
+        ELSE IF dx = "dollar"           \* $$ : process id
         THEN Res("subst", acc, Bl(blame, c))
-        ELSE IF nx = "star"             \* $* : positional parameters (none)
-        THEN Scan(src, i + 2, mode, acc, Bl(blame, c))
+        ELSE IF dx = "star"             \* $* : positional parameters (none)
+        THEN Scan(src, dj + 1, mode, acc, Bl(blame, c))
         ELSE Scan(src, i + 1, mode, Append(acc, "dollar"), blame)      \* a lone $ is literal
   IN
   CASE mode = "S" ->
